@@ -293,9 +293,9 @@ Fixpoint values_look_the_same (l r : expr) {struct l} : bool :=
       | EIf t2 y2 n2 => values_look_the_same t1 t2 && values_look_the_same y1 y2 && values_look_the_same n1 n2
       | _ => false
       end
-  | EUn o1 v1 _ =>
+  | EUn o1 v1 w1 =>
       match r with
-      | EUn o2 v2 _ => unop_eqb o1 o2 && values_look_the_same v1 v2
+      | EUn o2 v2 w2 => unop_eqb o1 o2 && Bool.eqb w1 w2 && values_look_the_same v1 v2
       | _ => false
       end
   | EBin o1 l1 r1 =>
